@@ -616,3 +616,82 @@ func W1Words(sink Sink) {
 		}
 	}
 }
+
+// W1RI whitespace runs INSIDE containers: every structural slot of three templates filled with a run
+// of length 0..12, 16, 17, 31..33, 64 (mixed and homogeneous), clean and with one foreign byte at a
+// few offsets (seeded change C08r4-m1 added tight filler loops to the fast skippers and got one
+// wrong: '{  }' with two or more whitespace bytes).
+func W1RI(sink Sink) {
+	templates := [][]string{
+		{"[", "]"},
+		{"{", "}"},
+		{"[", "1", ",", "2", "]"},
+		{"{", `"a"`, ":", "1", ",", `"b"`, ":", "[", "]", "}"},
+		{"[", "{", "}", ",", "[", "null", "]", "]"},
+	}
+	lens := []int{0, 1, 2, 3, 4, 5, 6, 7, 8, 9, 10, 11, 12, 16, 17, 31, 32, 33, 64}
+	wsb := " \t\n\r"
+	bad := []byte{0x00, 0x0b, 0x0c, 0x1f, 0xa0, 'x'}
+	c := &h.Case{Family: "W1RI"}
+	c.DescFn = func(c *h.Case) string {
+		return fmt.Sprintf("template #%d, run of %d whitespace bytes (pattern %d) in slot %d, foreign byte code %d", c.P[0], c.P[1], c.P[3]&3, c.P[2], c.P[3]>>2)
+	}
+	buf := make([]byte, 0, 256)
+	run := make([]byte, 0, 80)
+	for ti, tpl := range templates {
+		for slot := 1; slot < len(tpl); slot++ {
+			for _, L := range lens {
+				for pat := 0; pat < 3; pat++ {
+					for bi := -1; bi < len(bad); bi++ {
+						run = run[:0]
+						for i := 0; i < L; i++ {
+							switch pat {
+							case 0:
+								run = append(run, wsb[(i+slot)%4])
+							case 1:
+								run = append(run, ' ')
+							default:
+								run = append(run, wsb[1+(slot+L)%3])
+							}
+						}
+						if bi >= 0 {
+							if L == 0 {
+								continue
+							}
+							run[(L*(bi+1)/(len(bad)+1))%L] = bad[bi]
+						}
+						buf = buf[:0]
+						for i, part := range tpl {
+							if i == slot {
+								buf = append(buf, run...)
+							}
+							buf = append(buf, part...)
+						}
+						c.Input = buf
+						c.Desc = ""
+						c.P = [4]int{ti, L, slot, (bi+1)<<2 | pat}
+						sink(c)
+					}
+				}
+			}
+		}
+	}
+}
+
+// W1Depth: every nesting depth 1..130 (past two 64-entry chunk boundaries) around every kind of
+// innermost value, in array / object / mixed nests: stack growth interacting with each value kind.
+func W1Depth(sink Sink) {
+	pats := [][]int{{0}, {1}, {2}, {3}, {0, 2}, {1, 3}}
+	c := &h.Case{Family: "W1Dp"}
+	c.DescFn = func(c *h.Case) string { return fmt.Sprintf("nest pattern %v depth %d inner %q", pats[c.P[0]], c.P[1], NestInner[c.P[2]]) }
+	for pi, pat := range pats {
+		for d := 1; d <= 130; d++ {
+			for ii, inner := range NestInner {
+				c.Input = BuildNest(pat, d, inner, d)
+				c.Desc = ""
+				c.P = [4]int{pi, d, ii, 0}
+				sink(c)
+			}
+		}
+	}
+}
